@@ -13,6 +13,7 @@ BB = ['b0', 'b1', 'b2']
 H = ['h0', 'h1', 'h2']          # gyroscope row 0 of a two-row record
 N0 = ['n0', 'n1', 'n2']         # magnetometer row 0 of a two-row record
 W0 = ['r0', 'p0', 'y0']         # initial angles of Complementary
+C1 = ['c0', 'c1', 'c2']         # a VALID accelerometer row 1 (recovery step of Complementary)
 DT = ['dt']
 MR = [22.0, 1.5, 41.0]          # concrete magnetic reference for ROLEQ / EKF (avoids tracing the WMM in the constructor)
 
@@ -79,6 +80,11 @@ def targets():
         c = F(A).Complementary(gyr=_two_rows(H, G), acc=_two_rows(AC, None), mag=_two_rows(N0, M) if mag else None,
                                w0=v.vec(*W0), Dt=0.02)       # Dt given, frequency left at its default
         return [c.W[1], c.Q[1]]
+
+    def comp_valid(A, v, mag):
+        c = F(A).Complementary(gyr=_two_rows(H, G), acc=_two_rows(AC, C1), mag=_two_rows(N0, M) if mag else None,
+                               w0=v.vec(*W0), Dt=0.02, gain=0.95)
+        return c.W[1]
 
     def fkf(A, v, acc1, mag1):
         f = F(A).FKF(gyr=_two_rows(H, G), acc=_two_rows(AC, acc1), mag=_two_rows(N0, mag1))
@@ -164,11 +170,16 @@ def targets():
         # Complementary: two-row driver with w0 given, acc[1] = 0
         mk('comp_imu_a0', W0 + H + G + AC, lambda A, v: comp(A, v, False)),
         mk('comp_marg_a0', W0 + H + G + AC + N0 + M, lambda A, v: comp(A, v, True)),
+        # Complementary: the valid (blending) step after an outage, angles only
+        mk('comp_imu_v', W0 + H + G + AC + C1, lambda A, v: comp_valid(A, v, False), 'W[1] with a valid acc[1], gain 0.95, Dt 0.02'),
+        mk('comp_marg_v', W0 + H + G + AC + C1 + N0 + M, lambda A, v: comp_valid(A, v, True)),
     ]
 
 
 
-STAGES = [['C13_lib.v'], ['C13_mm.v', 'C13_mah.v', 'C13_rest.v', 'C13_drv.v', 'C13_comp.v'], ['C13.v']]
+STAGES = [['C13_lib.v'], ['C13_mm.v', 'C13_mah.v', 'C13_rest.v', 'C13_drv.v', 'C13_comp.v', 'C13_eq.v'], ['C13_rec.v'], ['C13.v']]
+# thorough tier only: the kernel needs 1-3 minutes for these two walks
+STAGES_THOROUGH = [['C13_t_fkf.v', 'C13_t_aqua.v']]
 COQ_TIMEOUT = 240
 
 
@@ -205,6 +216,11 @@ def _impl_table():
         o = F.Complementary(gyr=np.array([_v(c, H), _v(c, G)]), acc=np.array([_v(c, AC), z()]),
                             mag=np.array([_v(c, N0), _v(c, M)]) if mag else None, w0=_v(c, W0), Dt=0.02)
         return [o.W[1], o.Q[1]]
+
+    def comp_valid(c, mag):
+        o = F.Complementary(gyr=np.array([_v(c, H), _v(c, G)]), acc=np.array([_v(c, AC), _v(c, C1)]),
+                            mag=np.array([_v(c, N0), _v(c, M)]) if mag else None, w0=_v(c, W0), Dt=0.02, gain=0.95)
+        return o.W[1]
 
     def fkf(c, acc1, mag1):
         o = F.FKF(gyr=np.array([_v(c, H), _v(c, G)]), acc=np.array([_v(c, AC), acc1]), mag=np.array([_v(c, N0), mag1]))
@@ -259,6 +275,8 @@ def _impl_table():
         'fkf_m0': lambda c: fkf(c, _v(c, BB), z()),
         'comp_imu_a0': lambda c: comp(c, False),
         'comp_marg_a0': lambda c: comp(c, True),
+        'comp_imu_v': lambda c: comp_valid(c, False),
+        'comp_marg_v': lambda c: comp_valid(c, True),
     }
 
 
@@ -266,7 +284,7 @@ def _case(rng, names, i):
     c = {}
     qq = cm.quats(rng, i + 1)[i][1] if i < 40 else cm.rand_unit_quat(rng)
     c.update(cm.d(Q, qq))
-    for grp, sc in ((G, 1.0), (H, 1.0), (AC, 9.8), (M, 40.0), (N0, 40.0), (BB, 0.05), (W0, 1.0)):
+    for grp, sc in ((G, 1.0), (H, 1.0), (AC, 9.8), (C1, 9.8), (M, 40.0), (N0, 40.0), (BB, 0.05), (W0, 1.0)):
         vec = rng.standard_normal(3) * sc
         if grp is G and i % 7 == 3:
             vec = np.zeros(3)                 # exact-zero gyroscope: the early-return path
@@ -290,7 +308,7 @@ def correspondence(ctx):
             ctx.say(f"[corr] {t.name}: not translated")
             continue
         cases = [_case(ctx.rng, tt.inputs, i) for i in range(n)]
-        heavy = name.startswith(('fkf_a0', 'fkf_m0', 'comp_'))
+        heavy = name.startswith(('fkf_a0', 'fkf_m0', 'comp_', 'mad_m0', 'mah_m0'))
         jobs.append((t.name, cases[: max(8, n // 3)] if heavy else cases, I[name], 512 if heavy else 64))
     # one coqc process per target; the cases were drawn above in a fixed order, so running them concurrently is deterministic
     from concurrent.futures import ThreadPoolExecutor
@@ -649,7 +667,7 @@ def o_step(inp):
     k = 3 if name.startswith('comp_') else 0
     qn = float(np.linalg.norm(v[k:k + 4]))
     unit_in = abs(np.linalg.norm([inp['case'].get(x, 0.5) for x in Q]) - 1) < 1e-12 if 'w' in inp['case'] else True
-    if unit_in and abs(qn - 1) > 1e-9:
+    if unit_in and abs(qn - 1) > 1e-9 and not name.endswith('_v'):       # (*_v targets return angles only)
         return {'tag': f'{name}/non-unit', 'observed': qn, 'expected': 1.0}
     if name.endswith('_marg_m0'):
         h = len(v) // 2
@@ -658,7 +676,25 @@ def o_step(inp):
     return None
 
 
-ORACLES = {'dropout': o_dropout, 'step': o_step, 'config': o_config}
+def o_ukf_theta(inp):
+    """a VALID sample whose innovation is exactly zero (level, motionless, identity attitude, or a motionless record): UKF must
+    return a finite unit quaternion — the division of the correction vector by its norm must be guarded"""
+    from vlib.core import call_outcome
+    F = _F()
+    acc = np.array(inp['acc'], float)
+    if inp.get('N'):
+        r = call_outcome(lambda: np.asarray(F.UKF(gyr=np.zeros((inp['N'], 3)), acc=np.tile(acc, (inp['N'], 1))).Q, float))
+    else:
+        r = call_outcome(lambda: np.asarray(F.UKF().update(np.array(inp['q'], float), np.zeros(3), acc), float))
+    if r[0] == 'raise':
+        return {'tag': 'UKF/update/zero-innovation', 'observed': list(r[1:]), 'expected': 'the predicted state (identity correction)'}
+    v = np.atleast_2d(r[1])
+    if cm.bad(v) or np.max(np.abs(np.linalg.norm(v, axis=1) - 1)) > 1e-9:
+        return {'tag': 'UKF/update/zero-innovation', 'observed': v[-1], 'expected': 'finite unit quaternion'}
+    return None
+
+
+ORACLES = {'dropout': o_dropout, 'step': o_step, 'config': o_config, 'ukf_theta': o_ukf_theta}
 
 
 def _call(f, inp, what):
@@ -682,6 +718,9 @@ def search(ctx, scale):
             names = tt.inputs if tt is not None else Q + G + AC + M + BB + DT + H + N0 + W0
             inp = {'target': nm, 'case': _case(rng, names, i + 50)}
             ctx.check('step', inp, _call(o_step, inp, nm), nontrivial_key=(nm, i))
+    for inp in ({'q': [1.0, 0.0, 0.0, 0.0], 'acc': [0.0, 0.0, 9.81]}, {'q': [1.0, 0.0, 0.0, 0.0], 'acc': [0.0, 0.0, 1.0]},
+                {'N': 12, 'acc': [0.0, 0.0, 9.81]}):
+        ctx.check('ukf_theta', inp, _call(o_ukf_theta, inp, 'UKF/update'), nontrivial_key=('ukf_theta', json.dumps(inp)))
     # (b) configuration snapshots around a null-sample update, every configured variant with a per-sample entry point
     for vi, vn in enumerate(VARIANTS):
         cls, uses_mag = VARIANTS[vn][0], VARIANTS[vn][1]
